@@ -506,7 +506,7 @@ func init() {
 		fc.fact(fmt.Sprintf("(and (= (soff %s) 0) (= (slen %s) (slen %s)))", nw.S, nw.S, old.S))
 		fc.fact(fmt.Sprintf("(forall ((j Int)) (! (=> (and (<= 0 j) (< j (slen %s))) (exists ((i Int)) (and (<= 0 i) (< i (slen %s)) (= %s %s)))) :pattern (%s)))", nw.S, old.S, at(nw, "j"), at(old, "i"), at(nw, "j")))
 		fc.fact(fmt.Sprintf("(forall ((i Int)) (! (=> (and (<= 0 i) (< i (slen %s))) (exists ((j Int)) (and (<= 0 j) (< j (slen %s)) (= %s %s)))) :pattern (%s)))", old.S, nw.S, at(nw, "j"), at(old, "i"), at(old, "i")))
-		if fc.c == nil || fc.c.Opts["strings"] != "opaque" {
+		if !fc.opaque() {
 			fc.fact(fmt.Sprintf("(forall ((i Int) (j Int)) (! (=> (and (<= 0 i) (< i j) (< j (slen %s))) (str.<= %s %s)) :pattern (%s %s)))", nw.S, at(nw, "i"), at(nw, "j"), at(nw, "i"), at(nw, "j")))
 		}
 		// write back
@@ -524,4 +524,229 @@ func init() {
 		return nil
 	}
 	libTouches["sort.Strings"] = []string{"D$__string"}
+}
+
+// ---------------------------------------------------------------- C06: hashing the values
+//
+// bytes.Buffer: ghost content BUF[ref] (a byte string). sync.Pool: Get returns some non-nil
+// reference of the pool's element type whose content is arbitrary (a recycled buffer) but satisfies
+// the pool invariant declared with `//@ pool <var> ...`; Put must re-establish that invariant.
+// uuid.NewSHA1(uuid.NIL, d) = sha16(d): 16 bytes; SHA-1 collision freedom is the axiom sha16-injective
+// in /verif/spec/uuid.spec (assumed, listed).
+
+func bufArr(fc *FnCtx, st *State) Term { return fc.heapGet(st, "BUF", arr(SInt, SString)) }
+
+func refArg(args []Val, i int) (Term, bool) {
+	if i < len(args) {
+		if t, ok := args[i].(Term); ok && t.Sort == SInt {
+			return t, true
+		}
+	}
+	return Term{}, false
+}
+
+// poolElemType: the type of the values a package-level sync.Pool holds, determined from every Put.
+func (e *Engine) poolElemType(g *ssa.Global) types.Type {
+	var t types.Type
+	for f := range e.allFuncs {
+		if f.Pkg != g.Pkg {
+			continue
+		}
+		for _, b := range f.Blocks {
+			for _, in := range b.Instrs {
+				var cc *ssa.CallCommon
+				switch i := in.(type) {
+				case *ssa.Call:
+					cc = &i.Call
+				case *ssa.Defer:
+					cc = &i.Call
+				}
+				if cc == nil || cc.StaticCallee() == nil || fnKey(cc.StaticCallee()) != "sync.(*Pool).Put" || len(cc.Args) < 2 || cc.Args[0] != g {
+					continue
+				}
+				mi, ok := cc.Args[1].(*ssa.MakeInterface)
+				if !ok {
+					return nil
+				}
+				if t == nil {
+					t = mi.X.Type()
+				} else if !types.Identical(t, mi.X.Type()) {
+					return nil
+				}
+			}
+		}
+	}
+	return t
+}
+
+func varintLen(x string) string {
+	// number of bytes binary.PutVarint writes for the int64 x (zig-zag, 7 bits per byte)
+	out := "10"
+	for k := 9; k >= 1; k-- {
+		lim := "1"
+		for i := 0; i < 7*k-1; i++ {
+			lim = "(* 2 " + lim + ")"
+		}
+		out = fmt.Sprintf("(ite (and (<= (- %s) %s) (< %s %s)) %d %s)", lim, x, x, lim, k, out)
+	}
+	return out
+}
+
+func init() {
+	libModels["sync.(*Pool).Get"] = func(fr *frame, in ssa.Instruction, c *ssa.CallCommon, args []Val, st *State, reach string) Val {
+		fc := fr.fc
+		g, ok := c.Args[0].(*ssa.Global)
+		if !ok {
+			fc.unsupported("sync.Pool that is not a package-level variable")
+			return fc.fresh("pool_get", SAny)
+		}
+		et := fc.e.poolElemType(g)
+		if et == nil {
+			fc.unsupported("sync.Pool %s: element type not uniform", g.Name())
+			return fc.fresh("pool_get", SAny)
+		}
+		// an object taken from a pool is exclusively owned by the caller until it is put back: no
+		// reference visible to the caller aliases it, so it is treated like a fresh allocation whose
+		// content is arbitrary (recycled) but satisfies the pool invariant
+		r := fc.newRef(st, "pooled")
+		// pool invariant
+		for _, pi := range fc.e.specs.Pools {
+			if pi.Pkg == g.Pkg.Pkg.Path() && pi.Var == g.Name() {
+				env := &Env{fc: fc, pkg: pi.Pkg, vars: map[string]CVal{"x": {r, et}}, bound: map[string]CVal{}, st: st, old: st}
+				t, err := env.evalBool(pi.Inv)
+				if err != nil {
+					fc.unsupported("pool invariant of %s: %v", g.Name(), err)
+				} else {
+					fc.factIf(reach, t.S)
+					fc.trusted["pool invariant of "+shortKey(pi.Pkg)+"."+pi.Var+": "+pi.Src+" (assumed at Get, checked at every Put)"] = true
+				}
+			}
+		}
+		return fc.e.box(r, et)
+	}
+	libModels["sync.(*Pool).Put"] = func(fr *frame, in ssa.Instruction, c *ssa.CallCommon, args []Val, st *State, reach string) Val {
+		fc := fr.fc
+		g, ok := c.Args[0].(*ssa.Global)
+		if !ok {
+			return nil
+		}
+		et := fc.e.poolElemType(g)
+		x, isT := args[1].(Term)
+		if et == nil || !isT {
+			return nil
+		}
+		for _, pi := range fc.e.specs.Pools {
+			if pi.Pkg == g.Pkg.Pkg.Path() && pi.Var == g.Name() {
+				env := &Env{fc: fc, pkg: pi.Pkg, vars: map[string]CVal{"x": {fc.e.unbox(x, et), et}}, bound: map[string]CVal{}, st: st, old: st}
+				t, err := env.evalBool(pi.Inv)
+				if err == nil {
+					o := fc.oblig("pre", "pool."+g.Name()+".put-invariant", t.S, reach, in.Pos(), nil)
+					o.Src = pi.Src
+				}
+			}
+		}
+		return nil
+	}
+	bufWrite := func(fr *frame, in ssa.Instruction, c *ssa.CallCommon, args []Val, st *State, reach string) Val {
+		fc := fr.fc
+		r, ok := refArg(args, 0)
+		if !ok {
+			fc.unsupported("bytes.Buffer receiver")
+			return nil
+		}
+		fr.safety("nil", not(eq(r.S, "0")), reach, in.Pos(), "nil *bytes.Buffer")
+		p := tArg(args, 1)
+		a := bufArr(fc, st)
+		fc.heapSet(st, "BUF", Term{store(a.S, r.S, "(str.++ "+sel(a.S, r.S)+" "+p.S+")"), a.Sort})
+		return &Tuple{[]Val{Term{"(str.len " + p.S + ")", SInt}, Term{"anil", SAny}}}
+	}
+	libModels["bytes.(*Buffer).Write"] = bufWrite
+	libModels["bytes.(*Buffer).WriteString"] = bufWrite
+	libModels["bytes.(*Buffer).Reset"] = func(fr *frame, in ssa.Instruction, c *ssa.CallCommon, args []Val, st *State, reach string) Val {
+		fc := fr.fc
+		r, ok := refArg(args, 0)
+		if !ok {
+			fc.unsupported("bytes.Buffer receiver")
+			return nil
+		}
+		fr.safety("nil", not(eq(r.S, "0")), reach, in.Pos(), "nil *bytes.Buffer")
+		a := bufArr(fc, st)
+		fc.heapSet(st, "BUF", Term{store(a.S, r.S, "\"\""), a.Sort})
+		return nil
+	}
+	bufRead := func(fr *frame, in ssa.Instruction, c *ssa.CallCommon, args []Val, st *State, reach string) Val {
+		fc := fr.fc
+		r, ok := refArg(args, 0)
+		if !ok {
+			fc.unsupported("bytes.Buffer receiver")
+			return fc.fresh("buf", SString)
+		}
+		fr.safety("nil", not(eq(r.S, "0")), reach, in.Pos(), "nil *bytes.Buffer")
+		return fc.define("bufbytes", Term{sel(bufArr(fc, st).S, r.S), SString})
+	}
+	libModels["bytes.(*Buffer).Bytes"] = bufRead
+	libModels["bytes.(*Buffer).String"] = bufRead
+	for _, k := range []string{"bytes.(*Buffer).Write", "bytes.(*Buffer).WriteString", "bytes.(*Buffer).Reset"} {
+		libTouches[k] = []string{"BUF"}
+	}
+	libModels["encoding/binary.PutVarint"] = func(fr *frame, in ssa.Instruction, c *ssa.CallCommon, args []Val, st *State, reach string) Val {
+		fc := fr.fc
+		buf, x := tArg(args, 0), tArg(args, 1)
+		n := fc.define("varintlen", Term{varintLen(x.S), SInt})
+		fr.safety("putvarint", fmt.Sprintf("(>= (str.len %s) %s)", buf.S, n.S), reach, in.Pos(), "binary.PutVarint: buffer too small (panics)")
+		fc.declareFun("varint$bytes", []string{SInt}, SString)
+		fc.fact(fmt.Sprintf("(= (str.len (varint$bytes %s)) %s)", x.S, n.S))
+		nb := fc.define("putvarint", Term{fmt.Sprintf("(str.++ (varint$bytes %s) (str.substr %s %s (- (str.len %s) %s)))", x.S, buf.S, n.S, buf.S, n.S), SString})
+		if _, isSlice := c.Args[0].(*ssa.Slice); isSlice {
+			fr.vals[c.Args[0]] = nb // the only alias of a freshly made buffer: rebind (in-place write)
+		} else {
+			fc.unsupported("binary.PutVarint into a buffer that is not a freshly made slice")
+		}
+		return n
+	}
+	libModels["encoding/binary.(littleEndian).PutUint64"] = func(fr *frame, in ssa.Instruction, c *ssa.CallCommon, args []Val, st *State, reach string) Val {
+		fc := fr.fc
+		buf, x := tArg(args, 1), tArg(args, 2)
+		fr.safety("putuint64", fmt.Sprintf("(>= (str.len %s) 8)", buf.S), reach, in.Pos(), "PutUint64: buffer shorter than 8 bytes (panics)")
+		fc.declareFun("le64$bytes", []string{SInt}, SString)
+		fc.fact(fmt.Sprintf("(= (str.len (le64$bytes %s)) 8)", x.S))
+		nb := fc.define("putuint64", Term{fmt.Sprintf("(str.++ (le64$bytes %s) (str.substr %s 8 (- (str.len %s) 8)))", x.S, buf.S, buf.S), SString})
+		if _, isSlice := c.Args[1].(*ssa.Slice); isSlice {
+			fr.vals[c.Args[1]] = nb
+		} else {
+			fc.unsupported("PutUint64 into a buffer that is not a freshly made slice")
+		}
+		return nil
+	}
+	libModels["math.Float64bits"] = func(fr *frame, in ssa.Instruction, c *ssa.CallCommon, args []Val, st *State, reach string) Val {
+		fc := fr.fc
+		fc.declareFun("f64$bits", []string{SF64}, SInt)
+		v := Term{"(f64$bits " + tArg(args, 0).S + ")", SInt}
+		fc.fact(fmt.Sprintf("(and (<= 0 %s) (<= %s 18446744073709551615))", v.S, v.S))
+		return v
+	}
+	libModels["github.com/pborman/uuid.NewSHA1"] = func(fr *frame, in ssa.Instruction, c *ssa.CallCommon, args []Val, st *State, reach string) Val {
+		fc := fr.fc
+		data := tArg(args, 1)
+		isNil := false
+		if ld, ok := c.Args[0].(*ssa.UnOp); ok {
+			if g, ok := ld.X.(*ssa.Global); ok && g.Name() == "NIL" && g.Pkg.Pkg.Path() == "github.com/pborman/uuid" {
+				isNil = true
+			}
+		}
+		var v Term
+		if isNil {
+			fc.declareFun("sha16$", []string{SString}, SString)
+			v = Term{"(sha16$ " + data.S + ")", SString}
+		} else {
+			fc.declareFun("sha16x$", []string{SString, SString}, SString)
+			v = Term{"(sha16x$ " + tArg(args, 0).S + " " + data.S + ")", SString}
+		}
+		v = fc.define("sha", v)
+		fc.fact(fmt.Sprintf("(= (str.len %s) 16)", v.S))
+		return v
+	}
+	libModels["github.com/pborman/uuid.Equal"] = func(fr *frame, in ssa.Instruction, c *ssa.CallCommon, args []Val, st *State, reach string) Val {
+		return Term{eq(tArg(args, 0).S, tArg(args, 1).S), SBool}
+	}
 }
